@@ -200,7 +200,7 @@ theorem alt_step (H : OHyp E rank Good) {s s1 s3 : St U π} {nt : UNT U} {P : Sy
     · show s3.seenOf nt = []
       rw [hcs.seenOf]; exact a4
   · intro done items hph hnd
-    apply hph.step H.weak (P, v) pr (.node P arguments)
+    apply hph.step H (P, v) pr (.node P arguments)
     · intro d' it hd' ⟨c1, c2, w', kids', c3, c4, c5, c6, c7⟩
       refine ⟨?_, c2, w', kids', c3, c4, c5, fun i ai si h1 h2 => hst _ _ _ (hst1 _ _ _ (c6 i ai si h1 h2)), ?_⟩
       · show AList.lookup (nt, d'.1, d'.2) (AList.insert (nt, P, v) _ s3.maxRule) = _
